@@ -468,7 +468,7 @@ WideFam == Fam("wide",
    << DescAccess(Obj(<< <<Id("a"), <<"abig", 30000>> >> >>)),
       FQ(<<"fcall", "IN", <<XA, <<"fbig", 30000>> >> >>),
       Desc(KS(<<"TYPE">>) \o <<Sc(Str("huge"))>>),
-      Q(<< <<"concept", "x", FALSE, OM(<< <<Str("huge"), Str("huge")>> >>)>> >>) >>)
+      Q(<< <<"concept", "x", FALSE, OM(<< <<Str("huge"), Str("plain")>> >>)>> >>) >>)
 
 WholeBases ==
   << Desc(KS(<<"PRIMER">>)), Desc(KS(<<"SPACE">>)), Desc(KS(<<"TRUST">>)), Desc(KS(<<"ACCESS">>)), Meta("Snapshot", <<K("SNAPSHOT")>>),
